@@ -266,6 +266,23 @@ class Outcome:
         return 0
 
 
+def assertion_sites(texts):
+    """(basename, line) of every source line in the current headers that contains one of `texts`"""
+    sites = set()
+    roots = [os.path.join(build.REPO, "include"), os.path.join(build.REPO, "development")]
+    for root in roots:
+        for dp, dn, fn in os.walk(root):
+            for f in fn:
+                if f.endswith((".hpp", ".inl")):
+                    try:
+                        for i, line in enumerate(open(os.path.join(dp, f), encoding="utf-8-sig", errors="replace"), 1):
+                            if any(t in line for t in texts):
+                                sites.add((f, i))
+                    except OSError:
+                        pass
+    return sites
+
+
 def write_replay(pid, fxname, variant, trace_file, l, tags, n):
     d = os.path.join(tlc.CACHE, "replays")
     os.makedirs(d, exist_ok=True)
@@ -319,6 +336,12 @@ def behavioural(pid, tier, out, extra_tags=(), accept=None):
                 hit = None
                 for fd in findings:
                     if d["tag"] in fd.get("tags", []) and not (tags_here & set(fd.get("unless_tags", []))):
+                        if fd.get("assert_texts"):
+                            sites = assertion_sites(fd["assert_texts"])
+                            import re as _re
+                            seen = set((m.group(1), int(m.group(2))) for m in _re.finditer(r'<<"([^"]+)", (\d+)>>', d["detail"][-1]))
+                            if not seen or not seen <= sites:
+                                continue
                         hit = fd
                         break
                 if hit:
